@@ -34,6 +34,11 @@ def Partition (p : Proj) : Prop :=
   (keys p.services).Nodup ∧ (keys p.disabled).Nodup ∧ ∀ k ∈ keys p.services, k ∉ keys p.disabled
 instance (p : Proj) : Decidable (Partition p) := by unfold Partition; exact inferInstance
 
+/-- every service, enabled or not, is filed under its own `Name` (what the loader guarantees; the dependents
+policy of `ForEachService` goes through `Name`).  The spec clauses are only decided on such projects. -/
+def Named (p : Proj) : Prop := ∀ kv ∈ p.services ++ p.disabled, kv.2.name = kv.1
+instance (p : Proj) : Decidable (Named p) := by unfold Named; exact inferInstance
+
 /-- the service recorded under `k`, wherever it is -/
 def find (p : Proj) (k : String) : Option Svc :=
   match lookup k p.services with
@@ -101,9 +106,19 @@ def closure (svcs : AL Svc) (pol : Policy) (roots : List String) : List String :
 
 /-! ## per-operation clauses (before `p`, after `q`) -/
 
-/-- content of a service up to its `depends_on` -/
-def sameButDeps (a b : Svc) : Prop := { a with deps := [] } = { b with deps := [] }
+/-- content of a service up to its `depends_on` and its `environment` -/
+def sameButDeps (a b : Svc) : Prop := { a with deps := [], env := [] } = { b with deps := [], env := [] }
 instance (a b : Svc) : Decidable (sameButDeps a b) := by unfold sameButDeps; exact inferInstance
+
+/-- `b` is `a` with some unset variables (`KEY` without a value) given a value; nothing else changes -/
+def envLe : AL (Option String) → AL (Option String) → Bool
+  | [], [] => true
+  | (k, v) :: r, (k', v') :: r' => k == k' && (v == v' || v == none) && envLe r r'
+  | _, _ => false
+
+/-- the environment of a service only ever gets more resolved -/
+def envMore (a b : Svc) : Prop := envLe a.env b.env = true
+instance (a b : Svc) : Decidable (envMore a b) := by unfold envMore; exact inferInstance
 
 /-- dependencies only ever shrink, and keep their attributes -/
 def depsShrink (old new : Svc) : Prop := ∀ kv ∈ new.deps, lookup kv.1 old.deps = some kv.2
@@ -112,11 +127,12 @@ instance (a b : Svc) : Decidable (depsShrink a b) := by unfold depsShrink; exact
 /-- no service lost, none duplicated, none invented; contents carried over up to shrinking `depends_on` -/
 def Conserved (p q : Proj) : Prop :=
   Partition q ∧ SameSet (known p) (known q) ∧
-  ∀ k ∈ known q, sat (find p k) fun s => sat (find q k) fun t => sameButDeps s t ∧ depsShrink s t
+  ∀ k ∈ known q, sat (find p k) fun s => sat (find q k) fun t => sameButDeps s t ∧ depsShrink s t ∧ envMore s t
 instance (p q : Proj) : Decidable (Conserved p q) := by unfold Conserved; exact inferInstance
 
 def sameResources (p q : Proj) : Prop :=
-  p.networks = q.networks ∧ p.volumes = q.volumes ∧ p.secrets = q.secrets ∧ p.configs = q.configs
+  p.networks = q.networks ∧ p.volumes = q.volumes ∧ p.secrets = q.secrets ∧ p.configs = q.configs ∧
+  p.environment = q.environment
 instance (p q : Proj) : Decidable (sameResources p q) := by unfold sameResources; exact inferInstance
 
 /-- enabled services of `q` do not depend on any name of `gone` -/
@@ -142,15 +158,29 @@ def wantedProfiles (p : Proj) (names : List String) : List String :=
   names.flatMap (fun n => if n ∈ keys p.services then [] else
     match lookup n p.disabled with | some s => s.profiles | none => [])
 
+/-- a service after `WithServicesEnvironmentResolved`: a variable listed without a value takes the value the
+project environment has for it, if any (services without `env_file`; files are C16's subject) -/
+def resolvedSvc (penv : AL String) (s : Svc) : Svc :=
+  { s with env := s.env.map fun kv => (kv.1, match kv.2 with | some v => some v | none => lookup kv.1 penv) }
+
 /-- `WithServicesEnabled names` -/
 def EnableSpec (p : Proj) (names : List String) (q : Proj) : Prop :=
   if names = [] then q = p else
-  ProfilesSpec p (p.profiles ++ wantedProfiles p names) q ∧
+  q.profiles = p.profiles ++ wantedProfiles p names ∧
+  (∀ k ∈ known q, sat (find q k) fun s => (k ∈ keys q.services ↔ Active s (p.profiles ++ wantedProfiles p names))) ∧
+  -- an enabled service is the old one with its environment resolved, a disabled one is the old one
+  (∀ k ∈ known q, sat (find p k) fun s =>
+      find q k = some (if k ∈ keys q.services then resolvedSvc p.environment s else s)) ∧
   -- enabling a known service enables it and activates its profiles
   (ProfilesOK p → ∀ n ∈ names, n ∈ known p → n ∈ keys q.services ∧
     sat (find q n) fun s => Active s q.profiles ∧ (n ∉ keys p.services → ∀ x ∈ s.profiles, x ∈ q.profiles))
 instance (p : Proj) (names : List String) (q : Proj) : Decidable (EnableSpec p names q) := by
   unfold EnableSpec; exact inferInstance
+
+/-- the arguments of `WithServicesDisabled` up to and including the first occurrence of `x` -/
+def upTo (x : String) : List String → List String
+  | [] => []
+  | n :: ns => if n = x then [n] else n :: upTo x ns
 
 /-- `WithServicesDisabled names` -/
 def DisableSpec (p : Proj) (names : List String) (q : Proj) : Prop :=
@@ -164,6 +194,23 @@ def DisableSpec (p : Proj) (names : List String) (q : Proj) : Prop :=
   q.profiles = p.profiles
 instance (p : Proj) (names : List String) (q : Proj) : Decidable (DisableSpec p names q) := by
   unfold DisableSpec; exact inferInstance
+
+/-- exact content of the services moved by `WithServicesDisabled names`: a moved service has lost its dependencies
+on the names listed up to and including itself (the names are processed in argument order; this is the only way
+the order of the arguments matters) -/
+def DisableMovedSpec (p : Proj) (names : List String) (q : Proj) : Prop :=
+  ∀ kv ∈ q.disabled, kv.1 ∈ keys p.services → sat (lookup kv.1 p.services) fun s =>
+    kv.2 = { s with deps := s.deps.filter (fun d => d.1 ∉ upTo kv.1 names) }
+instance (p : Proj) (names : List String) (q : Proj) : Decidable (DisableMovedSpec p names q) := by
+  unfold DisableMovedSpec; exact inferInstance
+
+/-- exact content of the services disabled by `WithSelectedServices` (after the `fix:` commit): a non-selected
+service has lost its dependencies on the non-selected services whose name is not greater than its own -/
+def SelectMovedSpec (p : Proj) (S : List String) (q : Proj) : Prop :=
+  ∀ kv ∈ q.disabled, kv.1 ∈ keys p.services → sat (lookup kv.1 p.services) fun s =>
+    kv.2 = { s with deps := s.deps.filter (fun d => ¬(d.1 ∈ keys p.services ∧ d.1 ∉ S ∧ d.1 ≤ kv.1)) }
+instance (p : Proj) (S : List String) (q : Proj) : Decidable (SelectMovedSpec p S q) := by
+  unfold SelectMovedSpec; exact inferInstance
 
 /-- the outcome the property prescribes for `WithSelectedServices names pol`:
 `none` = "no such service", `some S` = the set of services that stay enabled -/
